@@ -54,6 +54,10 @@ def check(run):
     key(R)
     request(R)
     limit(R)
+    from . import C02 as _C02
+    with R.as_rule('C10.limit'):
+        _C02.geometry(R)         # the parser's error texts carry no received bytes: they are used as message templates of
+                                 # the ProtocolError that reports the oversized header
     headers(R)
     R.rule('C10.negotiated', 'Ready reports what the reply negotiated: extension tokens, option names and values are '
                              'compared without surrounding white space', 3)
